@@ -1,0 +1,17 @@
+//go:build verif
+
+package types
+
+// Contracts for the deductive checks in /verif (read by /verif/govc; comment-only, no code).
+
+// ---- C02 / C01: the vote sets of a height ----
+// ASSUMED: the vote set of a round and type is a function of the height vote set and the round: a round's vote set,
+// once created, is never replaced (HeightVoteSet only adds rounds), and the contracts refer only to rounds that exist.
+//@ func HeightVoteSet.Prevotes
+//@   trusted
+//@   purefn
+//@   assigns nothing
+//@ func HeightVoteSet.Precommits
+//@   trusted
+//@   purefn
+//@   assigns nothing
